@@ -1,5 +1,6 @@
 #!/bin/sh
+ROOT="$(cd "$(dirname "$0")/.." && pwd)"
 # runs every check (quick) against every kept behaviour-preserving change; any alarm is a false alarm of the machinery
-for d in /verif/selftest/equiv/*/; do
-  /verif/tools/equiv_eval.py "$(basename "$d")" 2>&1 | head -4
+for d in "$ROOT"/selftest/equiv/*/; do
+  "$ROOT"/tools/equiv_eval.py "$(basename "$d")" 2>&1 | head -4
 done
